@@ -29,13 +29,13 @@ var g2lUnits = []*g2lUnit{
 func init() {
 	g2lUnits = append(g2lUnits, &g2lUnit{
 		out: "FnTile", ns: "Tile", pkgDir: "sumdb/tlog",
-		imports:     []string{"ModVerif.Generated.FnTlog"},
-		opens:       []string{"ModVerif.Generated.Tlog"},
-		structNames: []string{"Tile", "TileReader", "Tree", "tileHashReader"},
-		noEq:        map[string]bool{"tileHashReader": true},
+		imports:      []string{"ModVerif.Generated.FnTlog"},
+		opens:        []string{"ModVerif.Generated.Tlog"},
+		structNames:  []string{"Tile", "TileReader", "Tree", "tileHashReader"},
+		noEq:         map[string]bool{"tileHashReader": true},
 		ifaceStructs: map[string]string{"TileReader": "/-- `type TileReader interface` (SaveTiles is an effect: see `effLog`) -/\nstructure TileReader where\n  Height : Int\n  ReadTiles : List Tile → (List Bytes × Option String)\ninstance : Inhabited TileReader := ⟨{ Height := 0, ReadTiles := fun _ => ([], none) }⟩\n"},
-		effects: map[string]string{"SaveTiles": "(List Tile × List Bytes)"},
-		effFns:  map[string]string{"tileHashReader.ReadHashes": "(List Tile × List Bytes)"},
+		effects:      map[string]string{"SaveTiles": "(List Tile × List Bytes)"},
+		effFns:       map[string]string{"tileHashReader.ReadHashes": "(List Tile × List Bytes)"},
 		fns: []string{"tileForIndex", "TileForIndex", "HashFromTile", "tileHash", "NewTiles", "ReadTileData", "Tile.Path", "ParseTilePath",
 			"tileParent", "tileHashReader.ReadHashes"},
 		checked: map[string]bool{"tileForIndex": true, "TileForIndex": true, "HashFromTile": true, "tileHash": true, "NewTiles": true,
@@ -44,7 +44,7 @@ func init() {
 		absFuncs: map[string]string{"NodeHash": "node", "copy->Hash": "ofBytes", "Hash[:]": "toBytes"},
 		absSigs:  map[string]string{"node": "H → H → H", "ofBytes": "Bytes → H", "toBytes": "H → Bytes"},
 		ifaces:   map[string]string{"HashReader": "List Int → (List H × Option String)"},
-		externs: map[string]string{},
+		externs:  map[string]string{},
 	})
 }
 
@@ -128,16 +128,16 @@ func init() {
 		foreignTypes: map[string]string{"zip.Reader": "ZReader", "zip.File": "ZEntry", "zip.Writer": "Unit", "os.File": "OsFile",
 			"io.LimitedReader": "LimitedReader", "module.Version": "ModVersion", "fs.DirEntry": "Unit"},
 		limitedReaders: true,
-		preamble: "/-- `f.Stat()` of the opened archive -/\ndef osStat (f : OsFile) : FileInfo × Option String := ({ Mode := 0, IsDir := false, Size := f.size }, f.statErr)\n",
+		preamble:       "/-- `f.Stat()` of the opened archive -/\ndef osStat (f : OsFile) : FileInfo × Option String := ({ Mode := 0, IsDir := false, Size := f.size }, f.statErr)\n",
 		ifaceStructs: map[string]string{
 			"FileInfo": "/-- `os.FileInfo` as the zip code uses it -/\nstructure FileInfo where\n  Mode : Int\n  IsDir : Bool\n  Size : Int\n  deriving DecidableEq, Repr\ninstance : Inhabited FileInfo := ⟨{ Mode := 0, IsDir := false, Size := 0 }⟩\n",
 			"File":     "/-- `type File interface` (Open yields the content) -/\nstructure File where\n  Path : Bytes\n  Lstat : FileInfo × Option String\n  Open : Bytes × Option String\n  deriving DecidableEq, Repr\ninstance : Inhabited File := ⟨{ Path := [], Lstat := (default, none), Open := ([], none) }⟩\n",
 		},
 		ifaces:      map[string]string{"ReadCloser": "Bytes", "Writer": "Unit"},
 		ignoreCalls: map[string]bool{"Close": true},
-		fns:         []string{"isVendoredPackage", "strToFold", "collisionChecker.check", "checkFiles", "CheckedFiles.Err", "checkZip", "Create", "Unzip",
+		fns: []string{"isVendoredPackage", "strToFold", "collisionChecker.check", "checkFiles", "CheckedFiles.Err", "checkZip", "Create", "Unzip",
 			"CheckFiles", "dirFile.Path", "dirFile.Lstat", "dirFile.Open", "listFilesInDir", "CheckDir", "CreateFromDir"},
-		inout:       map[string]string{"collisionChecker.check": "cc"},
+		inout: map[string]string{"collisionChecker.check": "cc"},
 		absFuncs: map[string]string{"version.Compare": "versionCompare", "unicode.SimpleFold": "simpleFold", "strings.EqualFold": "equalFold",
 			"module.CheckFilePath": "checkFilePath", "module.CanonicalVersion": "canonicalVersion", "module.Check": "moduleCheck", "strings.ToLower": "toLower", "version.Lang": "versionLang", "parseGoVers": "parseGoVers"},
 		absSigs: map[string]string{"versionCompare": "Bytes → Bytes → Int", "simpleFold": "Int → Int", "equalFold": "Bytes → Bytes → Bool",
@@ -178,7 +178,7 @@ func init() {
 		structFields: map[string][]string{"input": {"complete", "remaining", "tokenStart", "token", "pos", "comments"}},
 		fns: []string{"isIdent", "input.eof", "input.peekRune", "input.peekPrefix", "input.readRune", "tokenKind.isComment", "tokenKind.isEOL",
 			"input.startToken", "input.endToken", "input.peek", "input.lex", "input.readToken"},
-		inout: map[string]string{"input.readRune": "in", "input.startToken": "in", "input.endToken": "in", "input.lex": "in", "input.readToken": "in"},
+		inout:      map[string]string{"input.readRune": "in", "input.startToken": "in", "input.endToken": "in", "input.lex": "in", "input.readToken": "in"},
 		panicCalls: map[string]bool{"input.Error": true},
 		absFuncs:   map[string]string{"unicode.IsPrint": "isPrint", "unicode.IsSpace": "isSpace"},
 		absSigs:    map[string]string{"isPrint": "Int → Bool", "isSpace": "Int → Bool"},
@@ -195,8 +195,8 @@ func init() {
 		printfTo:    map[string]string{"printer.printf": "Buffer"},
 		noEq:        map[string]bool{"LineBlock": true, "FileSyntax": true, "Line": true, "CommentBlock": true, "LParen": true, "RParen": true, "Comments": true, "printer": true},
 		fns:         []string{"Format", "printer.indent", "printer.newline", "printer.trim", "printer.file", "printer.expr", "printer.tokens"},
-		inout: map[string]string{"printer.newline": "p", "printer.trim": "p", "printer.file": "p", "printer.expr": "p", "printer.tokens": "p"},
-		exclude: map[string]bool{"printf": true},
+		inout:       map[string]string{"printer.newline": "p", "printer.trim": "p", "printer.file": "p", "printer.expr": "p", "printer.tokens": "p"},
+		exclude:     map[string]bool{"printf": true},
 	})
 }
 
@@ -211,29 +211,29 @@ func init() {
 		},
 		walkCalls:      map[string]string{"filepath.Walk": "walkRoot?"},
 		lambdaClosures: true,
-		accumTypes:  map[string]bool{"hash.Hash": true},
-		ifaces:      map[string]string{"ReadCloser": "Bytes"},
-		ignoreCalls: map[string]bool{"Close": true},
-		mutCalls:    map[string]string{"sort.Strings": "sortStrings"},
-		stdCalls:    map[string]stdFn{"sha256.New": {"emptyBytes", false}, "filepath.Clean": {"pathClean", false}, "filepath.Join": {"fpJoin", false}, "filepath.ToSlash": {"id", false}},
-		absCalls:    map[string]string{"h.Sum": "shaSum:recv", "hf.Sum": "shaSum:recv", "base64.StdEncoding.EncodeToString": "b64enc", "os.Open": "osOpenRead"},
-		absSigs:     map[string]string{"shaSum": "Bytes → Bytes → Bytes", "b64enc": "Bytes → Bytes", "walkRoot": "Bytes → Option (FsTree FileInfo)", "osOpenRead": "Bytes → (Bytes × Option String)"},
+		accumTypes:     map[string]bool{"hash.Hash": true},
+		ifaces:         map[string]string{"ReadCloser": "Bytes"},
+		ignoreCalls:    map[string]bool{"Close": true},
+		mutCalls:       map[string]string{"sort.Strings": "sortStrings"},
+		stdCalls:       map[string]stdFn{"sha256.New": {"emptyBytes", false}, "filepath.Clean": {"pathClean", false}, "filepath.Join": {"fpJoin", false}, "filepath.ToSlash": {"id", false}},
+		absCalls:       map[string]string{"h.Sum": "shaSum:recv", "hf.Sum": "shaSum:recv", "base64.StdEncoding.EncodeToString": "b64enc", "os.Open": "osOpenRead"},
+		absSigs:        map[string]string{"shaSum": "Bytes → Bytes → Bytes", "b64enc": "Bytes → Bytes", "walkRoot": "Bytes → Option (FsTree FileInfo)", "osOpenRead": "Bytes → (Bytes × Option String)"},
 	})
 }
 
 func init() {
 	g2lUnits = append(g2lUnits, &g2lUnit{
 		out: "FnNoteKey", ns: "NoteKey", pkgDir: "sumdb/note",
-		imports:     []string{"ModVerif.Basic.GoRtNote", "ModVerif.Basic.GoRtStrconv", "ModVerif.Generated.Facts", "ModVerif.Generated.FnNote"},
-		opens:       []string{"ModVerif.Generated.Note"},
-		structNames: []string{"verifier", "signer"},
-		noEq:        map[string]bool{"verifier": true, "signer": true},
+		imports:      []string{"ModVerif.Basic.GoRtNote", "ModVerif.Basic.GoRtStrconv", "ModVerif.Generated.Facts", "ModVerif.Generated.FnNote"},
+		opens:        []string{"ModVerif.Generated.Note"},
+		structNames:  []string{"verifier", "signer"},
+		noEq:         map[string]bool{"verifier": true, "signer": true},
 		ifaceStructs: map[string]string{"Verifier": "", "Signer": ""},
 		ifaces:       map[string]string{"Verifiers": "Bytes → Int → (Verifier × Option String)"},
 		errFields:    map[string]bool{},
 		fns: []string{"verifier.Name", "verifier.KeyHash", "verifier.Verify", "signer.Name", "signer.KeyHash", "signer.Sign",
 			"NewVerifier", "NewSigner"},
-		exclude: map[string]bool{"VerifierList": true},
+		exclude:  map[string]bool{"VerifierList": true},
 		absFuncs: map[string]string{"ed25519.Verify": "edVerify", "ed25519.Sign": "edSign", "ed25519.NewKeyFromSeed": "edNewKey", "unicode.IsSpace": "isSpace"},
 		absCalls: map[string]string{"base64.StdEncoding.DecodeString": "b64dec", "h.Sum": "shaSum:recv"},
 		stdCalls: map[string]stdFn{"strconv.ParseUint": {"parseUint", false}},
@@ -249,34 +249,34 @@ func init() {
 	allChecked := map[string]bool{"TreeHash": true, "ProveTree": true, "ProveRecord": true, "tileHashReader.ReadHashes": true}
 	g2lUnits = append(g2lUnits, &g2lUnit{
 		out: "FnTlogW", ns: "TlogW", pkgDir: "sumdb/tlog",
-		imports:    []string{"ModVerif.Generated.FnTlog"},
-		opens:      []string{"ModVerif.Generated.Tlog"},
-		fns:        []string{"TreeHash", "ProveTree", "ProveRecord"},
-		checked:    allChecked,
-		absTypes:   map[string]string{"Hash": "H"},
+		imports:       []string{"ModVerif.Generated.FnTlog"},
+		opens:         []string{"ModVerif.Generated.Tlog"},
+		fns:           []string{"TreeHash", "ProveTree", "ProveRecord"},
+		checked:       allChecked,
+		absTypes:      map[string]string{"Hash": "H"},
 		extraTypeVars: []string{"W"},
-		absFuncs:   map[string]string{"NodeHash": "node"},
-		absVars:    map[string]string{"emptyHash": "empty"},
-		ifaces:     map[string]string{"HashReader": "Unit"},
-		worldFns:   map[string]string{"TreeHash": "W", "ProveTree": "W", "ProveRecord": "W"},
-		worldCalls: map[string]string{"r.ReadHashes": "readHashes:M", "h.ReadHashes": "readHashes:M"},
-		absSigs:    map[string]string{"node": "H → H → H", "empty": "H", "readHashes": "List Int → W → M ((List H × Option String) × W)"},
+		absFuncs:      map[string]string{"NodeHash": "node"},
+		absVars:       map[string]string{"emptyHash": "empty"},
+		ifaces:        map[string]string{"HashReader": "Unit"},
+		worldFns:      map[string]string{"TreeHash": "W", "ProveTree": "W", "ProveRecord": "W"},
+		worldCalls:    map[string]string{"r.ReadHashes": "readHashes:M", "h.ReadHashes": "readHashes:M"},
+		absSigs:       map[string]string{"node": "H → H → H", "empty": "H", "readHashes": "List Int → W → M ((List H × Option String) × W)"},
 	})
 	g2lUnits = append(g2lUnits, &g2lUnit{
 		out: "FnTileW", ns: "TileW", pkgDir: "sumdb/tlog",
-		imports:     []string{"ModVerif.Generated.FnTlog", "ModVerif.Generated.FnTile"},
-		opens:       []string{"ModVerif.Generated.Tlog", "ModVerif.Generated.Tile"},
-		structNames: []string{"tileHashReader"},
-		noEq:        map[string]bool{"tileHashReader": true},
-		fns:         []string{"tileHashReader.ReadHashes"},
-		checked:     allChecked,
-		absTypes:    map[string]string{"Hash": "H"},
+		imports:       []string{"ModVerif.Generated.FnTlog", "ModVerif.Generated.FnTile"},
+		opens:         []string{"ModVerif.Generated.Tlog", "ModVerif.Generated.Tile"},
+		structNames:   []string{"tileHashReader"},
+		noEq:          map[string]bool{"tileHashReader": true},
+		fns:           []string{"tileHashReader.ReadHashes"},
+		checked:       allChecked,
+		absTypes:      map[string]string{"Hash": "H"},
 		extraTypeVars: []string{"W"},
 		paramStructs:  []string{"Tree"},
-		absFuncs:    map[string]string{"NodeHash": "node", "copy->Hash": "ofBytes", "Hash[:]": "toBytes"},
-		ifaces:      map[string]string{"TileReader": "Unit", "HashReader": "Unit"},
-		worldFns:    map[string]string{"tileHashReader.ReadHashes": "W"},
-		worldCalls:  map[string]string{"r.tr.ReadTiles": "readTiles:M", "r.tr.SaveTiles": "saveTiles:M", "r.tr.Height": "height:M"},
+		absFuncs:      map[string]string{"NodeHash": "node", "copy->Hash": "ofBytes", "Hash[:]": "toBytes"},
+		ifaces:        map[string]string{"TileReader": "Unit", "HashReader": "Unit"},
+		worldFns:      map[string]string{"tileHashReader.ReadHashes": "W"},
+		worldCalls:    map[string]string{"r.tr.ReadTiles": "readTiles:M", "r.tr.SaveTiles": "saveTiles:M", "r.tr.Height": "height:M"},
 		absSigs: map[string]string{"node": "H → H → H", "ofBytes": "Bytes → H", "toBytes": "H → Bytes",
 			"readTiles": "List Tile → W → M ((List Bytes × Option String) × W)", "saveTiles": "List Tile → List Bytes → W → M (Unit × W)", "height": "W → M (Int × W)"},
 	})
@@ -294,20 +294,20 @@ func init() {
 		out: "FnClient", ns: "SumdbClient", pkgDir: "sumdb",
 		imports: []string{"ModVerif.Basic.GoRtClient", "ModVerif.Basic.GoRtStrings", "ModVerif.Generated.FnTlog", "ModVerif.Generated.FnTile", "ModVerif.Generated.FnTlogNote",
 			"ModVerif.Generated.FnNote", "ModVerif.Generated.FnNoteKey", "ModVerif.Generated.FnModule", "ModVerif.Generated.FnTlogW", "ModVerif.Generated.FnTileW"},
-		opens:         []string{"ModVerif.Generated.Tile", "ModVerif.Generated.Note"},
-		worldObjs:     map[string]bool{"Client": true, "tileReader": true},
-		worldFns:      wf,
-		extraTypeVars: []string{"σ"},
-		absTypes:      map[string]string{"Hash": "H"},
-		paramStructs:  []string{"Tree"},
-		anyType:       "Cached",
-		localTypes:    map[string]string{"cached": "Cached"},
-		ignoreRecover: true,
+		opens:          []string{"ModVerif.Generated.Tile", "ModVerif.Generated.Note"},
+		worldObjs:      map[string]bool{"Client": true, "tileReader": true},
+		worldFns:       wf,
+		extraTypeVars:  []string{"σ"},
+		absTypes:       map[string]string{"Hash": "H"},
+		paramStructs:   []string{"Tree"},
+		anyType:        "Cached",
+		localTypes:     map[string]string{"cached": "Cached"},
+		ignoreRecover:  true,
 		lambdaClosures: true,
-		ignoreCalls:   map[string]bool{"Lock": true, "Unlock": true, "Add": true, "Done": true, "Wait": true, "Log": true},
-		onceCalls:     map[string]string{"c.initOnce.Do": "initDone"},
-		cacheCalls:    map[string]string{"c.record.Do": "record", "c.tileCache.Do": "tileCache"},
-		ifaceStructs:  map[string]string{"Verifier": ""},
+		ignoreCalls:    map[string]bool{"Lock": true, "Unlock": true, "Add": true, "Done": true, "Wait": true, "Log": true},
+		onceCalls:      map[string]string{"c.initOnce.Do": "initDone"},
+		cacheCalls:     map[string]string{"c.record.Do": "record", "c.tileCache.Do": "tileCache"},
+		ifaceStructs:   map[string]string{"Verifier": ""},
 		foreignTypes: map[string]string{"tlog.Tile": "Tile", "tlog.Tree": "(Tree H)", "tlog.HashReader": "(Tree H)", "tlog.TreeProof": "(List H)", "sync.WaitGroup": "Unit",
 			"note.Verifiers": "(Bytes → Int → (Verifier × Option String))", "note.Verifier": "Verifier", "note.Note": "Note"},
 		fns: []string{"Client.tileCacheKey", "Client.tileRemotePath", "Client.markTileSaved", "Client.readTile", "tileReader.Height", "tileReader.ReadTiles", "tileReader.SaveTiles",
@@ -333,8 +333,8 @@ func init() {
 	})
 }
 
-const clientPreamble = `/-- the state of the one `+"`Client`"+` object and of the world behind its `+"`ClientOps`"+` (state `+"`σ`"+`): fields of the Go struct, the
-    two parCache tables as association lists, `+"`initOnce`"+` as a flag -/
+const clientPreamble = `/-- the state of the one ` + "`Client`" + ` object and of the world behind its ` + "`ClientOps`" + ` (state ` + "`σ`" + `): fields of the Go struct, the
+    two parCache tables as association lists, ` + "`initOnce`" + ` as a flag -/
 structure CW (σ H : Type) where
   s : σ
   didLookup : Int
@@ -464,8 +464,8 @@ func init() {
 		imports: []string{"ModVerif.Basic.GoRtUtf8", "ModVerif.Basic.GoRtStrings", "ModVerif.Basic.GoRtHeap", "ModVerif.Basic.GoRtZipIO", "ModVerif.Basic.GoRtEdit", "ModVerif.Generated.FnSemver", "ModVerif.Generated.FnModule"},
 		structNames: []string{"Position", "Comment", "Comments", "CommentBlock", "LParen", "RParen", "Line", "LineBlock", "Expr", "FileSyntax",
 			"VersionInterval", "Module", "Go", "Toolchain", "Godebug", "Require", "Exclude", "Replace", "Retract", "Tool", "File", "Use", "WorkFile"},
-		sumTypes:  map[string][]string{"Expr": {"CommentBlock", "LParen", "RParen", "Line", "LineBlock", "FileSyntax"}},
-		sumNil:    map[string]bool{"Expr": true},
+		sumTypes: map[string][]string{"Expr": {"CommentBlock", "LParen", "RParen", "Line", "LineBlock", "FileSyntax"}},
+		sumNil:   map[string]bool{"Expr": true},
 		heapTypes: map[string]string{"CommentBlock": "cbs", "Line": "lines", "LineBlock": "blocks", "FileSyntax": "files", "Module": "modules", "Go": "gos", "Toolchain": "toolchains",
 			"Godebug": "godebugs", "Require": "requires", "Exclude": "excludes", "Replace": "replaces", "Retract": "retracts", "Tool": "tools", "File": "mods",
 			"Use": "uses", "WorkFile": "works"},
@@ -487,9 +487,9 @@ func init() {
 			"module.PathMajorPrefix": true, "module.CheckPathMajor": true},
 		externFue: map[string]bool{"semver.Compare": true, "semver.Major": true, "module.SplitPathVersion": true, "module.CanonicalVersion": true,
 			"module.PathMajorPrefix": true, "module.CheckPathMajor": true},
-		absCalls:     map[string]string{"GoVersionRE.MatchString": "goVersionRE", "ToolchainRE.MatchString": "toolchainRE"},
-		absFuncs:     map[string]string{"unicode.IsPrint": "isPrint", "unicode.IsSpace": "isSpace", "strconv.Quote": "quote"},
-		absSigs:      map[string]string{"isPrint": "Int → Bool", "isSpace": "Int → Bool", "quote": "Bytes → Bytes", "goVersionRE": "Bytes → Bool", "toolchainRE": "Bytes → Bool"},
+		absCalls: map[string]string{"GoVersionRE.MatchString": "goVersionRE", "ToolchainRE.MatchString": "toolchainRE"},
+		absFuncs: map[string]string{"unicode.IsPrint": "isPrint", "unicode.IsSpace": "isSpace", "strconv.Quote": "quote"},
+		absSigs:  map[string]string{"isPrint": "Int → Bool", "isSpace": "Int → Bool", "quote": "Bytes → Bytes", "goVersionRE": "Bytes → Bool", "toolchainRE": "Bytes → Bool"},
 	})
 }
 
@@ -509,8 +509,8 @@ func init() {
 		imports: []string{"ModVerif.Basic.GoRtUtf8", "ModVerif.Basic.GoRtStrings", "ModVerif.Basic.GoRtHeap", "ModVerif.Basic.GoRtZipIO", "ModVerif.Basic.GoRtEdit", "ModVerif.Basic.GoRtNote", "ModVerif.Basic.GoRtRule", "ModVerif.Generated.FnSemver", "ModVerif.Generated.FnModule"},
 		structNames: []string{"Position", "Comment", "Comments", "CommentBlock", "LParen", "RParen", "Line", "LineBlock", "Expr", "FileSyntax",
 			"VersionInterval", "Module", "Go", "Toolchain", "Godebug", "Require", "Exclude", "Replace", "Retract", "Tool", "File", "Use", "WorkFile", "Error"},
-		sumTypes:  map[string][]string{"Expr": {"CommentBlock", "LParen", "RParen", "Line", "LineBlock", "FileSyntax"}},
-		sumNil:    map[string]bool{"Expr": true},
+		sumTypes: map[string][]string{"Expr": {"CommentBlock", "LParen", "RParen", "Line", "LineBlock", "FileSyntax"}},
+		sumNil:   map[string]bool{"Expr": true},
 		heapTypes: map[string]string{"CommentBlock": "cbs", "Line": "lines", "LineBlock": "blocks", "FileSyntax": "files", "Module": "modules", "Go": "gos", "Toolchain": "toolchains",
 			"Godebug": "godebugs", "Require": "requires", "Exclude": "excludes", "Replace": "replaces", "Retract": "retracts", "Tool": "tools", "File": "mods",
 			"Use": "uses", "WorkFile": "works", "Error": "errors"},
@@ -532,14 +532,14 @@ func init() {
 			"module.PathMajorPrefix": true, "module.CheckPathMajor": true},
 		absCalls: map[string]string{"GoVersionRE.MatchString": "goVersionRE", "ToolchainRE.MatchString": "toolchainRE",
 			"laxGoVersionRE.FindStringSubmatch": "laxGoVersionSub", "deprecatedRE.FindStringSubmatch": "deprecatedSub"},
-		anyType:    "Unit",
-		worldCalls: map[string]string{"parse": "parseSyn:M"},
+		anyType:     "Unit",
+		worldCalls:  map[string]string{"parse": "parseSyn:M"},
 		exclude:     map[string]bool{"parse": true},
 		errConv:     map[string]string{"ErrorList": "errListErr"},
 		optFuncs:    map[string]string{"VersionFixer": "Bytes → Bytes → (Bytes × Option String)"},
 		valueIdents: map[string]string{"dontFixRetract": "(some dontFixRetract)"},
 		errStructs:  map[string]bool{"module.ModuleError": true},
-		preamble:    "/-- `var dontFixRetract VersionFixer = func(_, vers string) (string, error) { return vers, nil }` -/\ndef dontFixRetract : Bytes → Bytes → (Bytes × Option String) := fun _ vers => (vers, none)\n\n" +
+		preamble: "/-- `var dontFixRetract VersionFixer = func(_, vers string) (string, error) { return vers, nil }` -/\ndef dontFixRetract : Bytes → Bytes → (Bytes × Option String) := fun _ vers => (vers, none)\n\n" +
 			"/-- an `ErrorList` as an `error` value: every entry with its position and its inner error, separated by U+0001 -/\ndef errListErr (l : List Error) : Option String :=\n  some (String.intercalate (String.singleton (Char.ofNat 1)) (l.map fun e => s!\"{e.Pos.Line},{e.Pos.LineRune},{e.Pos.Byte},{e.Err.getD \"\"}\"))\n\n",
 		absFuncs: map[string]string{"unicode.IsPrint": "isPrint", "unicode.IsSpace": "isSpace", "strconv.Quote": "quote", "strconv.Unquote": "unquote"},
 		absSigs: map[string]string{"isPrint": "Int → Bool", "isSpace": "Int → Bool", "quote": "Bytes → Bytes", "unquote": "Bytes → (Bytes × Option String)",
